@@ -1,0 +1,13 @@
+//! Read-only observation hook (feature `verif-hooks`).
+use super::*;
+use alloc::vec::Vec;
+
+impl TopicAliasRecv {
+    /// `(max, alias -> topic sorted by alias)`
+    pub fn verif_dump(&self) -> (TopicAliasType, Vec<(TopicAliasType, String)>) {
+        let mut v: Vec<(TopicAliasType, String)> =
+            self.aliases.iter().map(|(a, t)| (*a, t.clone())).collect();
+        v.sort();
+        (self.max_alias, v)
+    }
+}
